@@ -898,6 +898,19 @@ V('M-dynnames-sorted', ['C16'], 'C16.dynorder', UN, "            return (self._i
 V('M-asbinary-zfill', ['C17'], 'W.binstr', UN, "        binString = bin(self._value)[2:].lstrip('0')\n        return '0' * (len(self._value) - len(binString)) + binString", "        return bin(self._value)[2:].zfill(len(self._value))")
 
 
+# round 7 of seeded changes (g1..g3): operators, properties, class constants, tables
+V('M-ber-omit-empty', ['C01', 'C10'], 'A1.omit', BE, "    omitEmptyOptionals = False", "    omitEmptyOptionals = True")
+V('M-biteq-no-length', ['C02', 'C10'], 'W.biteq', UN, "        return self is other or self._value == other and len(self._value) == len(other)", "        return self is other or self._value == other")
+V('M-choice-efftag-plain', ['C07', 'C09'], 'A10.efftag', UN, "            return component.effectiveTagSet", "            return component.tagSet")
+V('M-octets-radd-appends', ['C09', 'C08'], 'W.radd', UN, "        return self.clone(self.prettyIn(value) + self._value)", "        return self + value")
+V('M-eos-any-seekable', ['C11', 'C05'], 'A12.eospos', ST, "    if isinstance(substrate, io.BytesIO):\n        cp = substrate.tell()", "    if isinstance(substrate, io.BytesIO) or substrate.seekable():\n        cp = substrate.tell()")
+V('M-der-flag-on-shared', ['C12', 'C15'], 'A1.shared', DD, "        typeDecoder = typeDecoder.__class__()\n", "")
+V('M-value-set-xor', ['C14'], 'C14.setops', CO, "        return self.__class__(*(self._set.union(constraint)))\n\n    def __sub__(self, constraint):\n        return self.__class__(*(self._set.difference(constraint)))", "        return self.__class__(*(self._set.union(constraint)))\n\n    def __sub__(self, constraint):\n        return self.__class__(*(self._set ^ set(constraint)))")
+V('M-native-setof-by-tag', ['C17'], 'A1.nativeof', ND, "    univ.SetOf.typeId: SequenceOfOrSetOfPayloadDecoder(),\n", "")
+V('M-novalue-hashable', ['C19'], 'A10.plug', BA, "        '__slots__',\n", "        '__slots__',\n        '__hash__',\n")
+V('M-cer-set-member-own-tags', ['C13'], 'C13.setspec', CE, "                comps.append((component, asn1Spec[idx]))", "                comps.append((component, None))")
+
+
 if __name__ == '__main__':
     from sa import props
     pids = sys.argv[1:] or sorted(props.PROPS)
